@@ -10,15 +10,16 @@ def check_tree(C, drv, root, tag, exhaustive_idx=True):
     enc = T.enc_tree(root)
     n = len(nodes)
     # real code
-    real_pre = [idx[id(x)] for x in root.pre_order]
-    real_post = [idx[id(x)] for x in root.post_order]
+    # nodes the traversal lists that are not in the tree at all get index -1 (a stale / foreign node)
+    real_pre = [idx.get(id(x), -1) for x in root.pre_order]
+    real_post = [idx.get(id(x), -1) for x in root.post_order]
     real_props = (root.min_depth, root.max_depth, root.n_leaves, root.n_nodes)
     ps = list(range(0, n + 2))
     real_find = []
     for p in ps:
         try:
             a, b = root.find_node(p)
-            real_find.append('noslot' if a is None else f'slot {idx[id(a)]} {1 if b else 0}')
+            real_find.append('noslot' if a is None else f'slot {idx.get(id(a), -1)} {1 if b else 0}')
         except AttributeError:
             real_find.append('error')
     lines = [f't.pre {enc}', f't.post {enc}', f't.props {enc}'] + [f't.find {enc} {p}' for p in ps]
@@ -75,6 +76,84 @@ def check(ctx):
                                 min_depth=mn, max_depth=mn + C.rng.randint(0, 4), functions=fs,
                                 lower_bound=[0], upper_bound=[1])
             check_tree(C, drv, sp.trees[0], 'grown')
+        # history: the same tree object is measured, edited in place below the root, and measured again
+        import copy as _copy, itertools as _it
+        shapes2 = [s_ for s_ in T.shapes_upto(3) if T.shape_size(s_) >= 4]
+        for k in range(60 if ctx['tier'] == 'quick' else 600):
+            root = T.build(C.rng.choice(shapes2))
+            check_tree(C, drv, root, 'history-before')
+            nodes, _ = T.walk(root)
+            deep = [n for n in nodes if n.parent is not None and n.parent.parent is not None]
+            if not deep:
+                continue
+            d_ = C.rng.choice(deep)
+            branch = T.build(C.rng.choice(T.shapes_upto(2)))
+            par = d_.parent
+            if d_.flag:
+                par.left = branch
+                branch.flag = True
+            else:
+                par.right = branch
+                branch.flag = False
+            branch.parent = par
+            check_tree(C, drv, root, 'history-after-edit')
+            check_tree(C, drv, _copy.deepcopy(root), 'history-deepcopy')
+        # every order of the three linking steps of a right (and left) child
+        for side in (False, True):
+            for order in _it.permutations(['flag', 'parent', 'attach']):
+                p_ = L['Node'](name='SUM', type='FUNCTION')
+                other = L['Node'](name=0, type='TERMINAL', value=np.array([[0.5]]))
+                ch = L['Node'](name='ABS', type='FUNCTION')
+                inner = L['Node'](name='SUM', type='FUNCTION')
+                leaf = L['Node'](name=0, type='TERMINAL', value=np.array([[0.5]]))
+                leaf2 = L['Node'](name=0, type='TERMINAL', value=np.array([[0.5]]))
+                ch.left = inner
+                inner.parent = ch
+                inner.left = leaf
+                leaf.parent = inner
+                inner.right = leaf2
+                leaf2.flag = False
+                leaf2.parent = inner
+                if side:
+                    p_.right = other; other.flag = False
+                else:
+                    p_.left = other
+                other.parent = p_
+                for step in order:
+                    if step == 'flag':
+                        ch.flag = side
+                    elif step == 'parent':
+                        ch.parent = p_
+                    elif side:
+                        p_.left = ch
+                    else:
+                        p_.right = ch
+                check_tree(C, drv, p_, 'link-order')
+        # trees produced by the GP operators from parents that had been traversed before
+        gp = L['kinds']['GP']()
+        import gpops
+        for k in range(40 if ctx['tier'] == 'quick' else 400):
+            fa, mo = T.build(C.rng.choice(shapes2)), T.build(C.rng.choice(shapes2), ops=None)
+            _ = (fa.pre_order, fa.post_order, fa.n_nodes, mo.pre_order, mo.n_nodes)
+            sc = gpops.Script(C.rng, forced=[C.rng.randint(1, fa.n_nodes), C.rng.randint(1, mo.n_nodes)]).install()
+            try:
+                o1, o2 = gp._cross(fa, mo, fa.n_nodes, mo.n_nodes)
+            except AttributeError:
+                continue
+            finally:
+                sc.remove()
+            for o in (o1, o2):
+                check_tree(C, drv, o, 'offspring')
+            # second generation: the offspring are crossed again
+            sc = gpops.Script(C.rng, forced=[C.rng.randint(1, o1.n_nodes), C.rng.randint(1, o2.n_nodes)]).install()
+            try:
+                p1, p2 = gp._cross(o1, o2, o1.n_nodes, o2.n_nodes)
+            except AttributeError:
+                continue
+            finally:
+                sc.remove()
+            for o in (p1, p2, o1, o2):
+                check_tree(C, drv, o, 'second-generation')
         if ctx['tier'] == 'thorough':
             d3 = T.shapes_upto(3)
             for k in range(300):
